@@ -3,7 +3,7 @@
    set_fire additionally refuses the sink q and everything outside V - {q}, before anything is written. *)
 From Coq Require Import ZArith List Lia Bool Arith Permutation.
 Import ListNotations.
-From CF Require Import ZSum ListAux Defs Core Machines GraphLink MachinesLink PyDict ImpRep TranslatedImpCFDivisor ImpLinkDiv TranslatedImpCFConfigMoves.
+From CF Require Import ZSum ListAux Defs Core Config Machines GraphLink MachinesLink PyDict ImpRep TranslatedImpCFDivisor ImpLinkDiv TranslatedImpCFConfigMoves.
 Open Scope Z_scope.
 
 Definition rep_vtilde (n q : nat) (vt : list nat) : Prop := forall v, s_mem v vt = Nat.ltb v n && negb (Nat.eqb v q).
@@ -62,3 +62,68 @@ Proof. intros HR. unfold CFConfigMoves_lending_move, CFConfigMoves_borrowing_mov
     + destruct H as [H1 H2]. rewrite H1. eexists. split; [reflexivity|exact H2].
     + destruct H as [H1 H2]. rewrite H1. split; [reflexivity|exact H2]. Qed.
 End CM.
+
+(* The readers CFConfig.get_degree_at / get_q_underlying_degree / get_degree_sum / is_non_negative, translated from the current source: they call the
+   translated CFDivisor.get_degree on the wrapped divisor; the two loops run over V - {q} in an arbitrary order. *)
+Section CR.
+Variable g : graph.
+Variables (q : nat) (vt : list nat).
+Hypothesis Hvt : rep_vtilde (nv g) q vt.
+Hypothesis Hnd : NoDup vt.
+Local Notation n := (nv g).
+
+Lemma vt_perm : Permutation vt (vtilde g q).
+Proof. apply NoDup_Permutation; [exact Hnd|apply NoDup_filter, Vg_nodup|]. intros v. unfold vtilde. rewrite filter_In, in_Vg, <- s_mem_In, (Hvt v).
+  rewrite andb_true_iff, Nat.ltb_lt. tauto. Qed.
+
+Theorem config_get_degree_at_refines dd D v : rep_div n dd D ->
+  CFConfigMoves_get_degree_at q vt dd v = if inb g v && negb (Nat.eqb v q) then PyOk (nthZ D v) else PyExn tt.
+Proof. intros HR. unfold CFConfigMoves_get_degree_at. cbn zeta. rewrite (Hvt v), (get_degree_refines g dd D v HR). unfold inb.
+  destruct (Nat.eqb v q); [rewrite andb_false_r; reflexivity|]. cbn [negb]. rewrite andb_true_r. destruct (Nat.ltb v n); reflexivity. Qed.
+Theorem config_get_q_underlying_degree_refines dd D : rep_div n dd D ->
+  CFConfigMoves_get_q_underlying_degree dd q = if inb g q then PyOk (nthZ D q) else PyExn tt.
+Proof. intros HR. unfold CFConfigMoves_get_q_underlying_degree. rewrite (get_degree_refines g dd D q HR). destruct (inb g q); reflexivity. Qed.
+
+Definition sum_body (dd : dictZ) (acc_ : pyres unit Z) (v_node : nat) : pyres unit Z :=
+  match acc_ with PyExn e_ => PyExn e_ | PyOk current_sum =>
+  match CFConfigMoves_get_degree_at q vt dd v_node with PyExn _ => PyExn tt | PyOk t1_ => let current_sum := (current_sum + t1_) in PyOk current_sum end end.
+Lemma sum_loop dd D : rep_div n dd D -> forall L, (forall x, In x L -> In x vt) -> forall a,
+  fold_left (sum_body dd) L (PyOk a) = PyOk (a + zsum (nthZ D) L).
+Proof. intros HR. induction L as [|x L IH]; intros HL a; [cbn; f_equal; lia|]. cbn [fold_left]. unfold sum_body at 2.
+  rewrite (config_get_degree_at_refines dd D x HR).
+  assert (E : inb g x && negb (Nat.eqb x q) = true). { unfold inb. rewrite <- (Hvt x). apply s_mem_In, HL. now left. }
+  rewrite E. cbn zeta. rewrite IH by (intros y Hy; apply HL; now right). f_equal. cbn [zsum]. lia. Qed.
+Theorem config_get_degree_sum_refines dd D so : rep_div n dd D -> (forall l, Permutation (so l) l) ->
+  CFConfigMoves_get_degree_sum vt q dd so = PyOk (zsum (nthZ D) (vtilde g q)).
+Proof. intros HR Hso. change (CFConfigMoves_get_degree_sum vt q dd so) with
+    (match fold_left (sum_body dd) (so vt) (PyOk 0) with PyExn e_ => PyExn e_ | PyOk current_sum => PyOk current_sum end).
+  rewrite (sum_loop dd D HR) by (intros x Hx; apply (Permutation_in _ (Hso vt)); exact Hx).
+  f_equal. rewrite (zsum_perm _ _ _ (Hso vt)), (zsum_perm _ _ _ vt_perm). lia. Qed.
+
+Definition nn_body (dd : dictZ) (acc_ : pyres unit (option bool * unit)) (v_node : nat) : pyres unit (option bool * unit) :=
+  match acc_ with PyExn e_ => PyExn e_ | PyOk (Some r_, tt) => PyOk (Some r_, tt) | PyOk (None, tt) =>
+  match CFConfigMoves_get_degree_at q vt dd v_node with PyExn _ => PyExn tt | PyOk t1_ => if (t1_ <? 0) then PyOk (Some (false), tt) else PyOk (None, tt) end end.
+Lemma nn_done dd L r : fold_left (nn_body dd) L (PyOk (Some r, tt)) = PyOk (Some r, tt).
+Proof. induction L as [|x L IH]; [reflexivity|exact IH]. Qed.
+Lemma nn_loop dd D : rep_div n dd D -> forall L, (forall x, In x L -> In x vt) ->
+  fold_left (nn_body dd) L (PyOk (None, tt)) = if forallb (fun v => 0 <=? nthZ D v) L then PyOk (None, tt) else PyOk (Some false, tt).
+Proof. intros HR. induction L as [|x L IH]; intros HL; [reflexivity|]. cbn [fold_left forallb]. unfold nn_body at 2.
+  rewrite (config_get_degree_at_refines dd D x HR).
+  assert (E : inb g x && negb (Nat.eqb x q) = true). { unfold inb. rewrite <- (Hvt x). apply s_mem_In, HL. now left. }
+  rewrite E. destruct (Z.ltb_spec (nthZ D x) 0) as [Q|Q].
+  - rewrite nn_done. destruct (Z.leb_spec 0 (nthZ D x)); [lia|reflexivity].
+  - destruct (Z.leb_spec 0 (nthZ D x)); [|lia]. cbn [andb]. apply IH. intros y Hy. apply HL. now right. Qed.
+Theorem config_is_non_negative_refines dd D so : rep_div n dd D -> (forall l, Permutation (so l) l) ->
+  CFConfigMoves_is_non_negative vt q dd so = PyOk (forallb (fun v => 0 <=? nthZ D v) (vtilde g q)).
+Proof. intros HR Hso. change (CFConfigMoves_is_non_negative vt q dd so) with
+    (match fold_left (nn_body dd) (so vt) (PyOk (None, tt)) with PyExn e_ => PyExn e_ | PyOk (Some r_, tt) => PyOk r_ | PyOk (None, tt) => PyOk true end).
+  rewrite (nn_loop dd D HR) by (intros x Hx; apply (Permutation_in _ (Hso vt)); exact Hx).
+  rewrite (forallb_perm _ _ _ (Hso vt)), (forallb_perm _ _ _ vt_perm). destruct (forallb _ (vtilde g q)); reflexivity. Qed.
+(* in the model's terms: non-negative away from q *)
+Lemma nonneg_off_vtilde D : nonneg_off g q D = forallb (fun v => 0 <=? nthZ D v) (vtilde g q).
+Proof. unfold nonneg_off, vtilde. induction (Vg g) as [|x L IH]; [reflexivity|]. cbn [forallb filter]. rewrite IH.
+  destruct (Nat.eqb x q); cbn [negb orb forallb]; reflexivity. Qed.
+End CR.
+(* the hypotheses are met: V - {q} itself represents V - {q} *)
+Lemma rep_vtilde_of g q : rep_vtilde (nv g) q (vtilde g q) /\ NoDup (vtilde g q).
+Proof. split; [|apply NoDup_filter, Vg_nodup]. intros v. apply Bool.eq_true_iff_eq. rewrite s_mem_In. unfold vtilde. rewrite filter_In, in_Vg, andb_true_iff, Nat.ltb_lt. tauto. Qed.
